@@ -406,7 +406,7 @@ func mutants(in *chain.Inst, base *pb.Transaction, pre *world.PreExecResult) []m
 
 type stats struct {
 	programs, preexecFailed, accepted, mutants, committed int
-	freeAccepted, freeRefused                            int
+	freeAccepted, freeRefused                             int
 }
 
 // runBase runs one base case with all its mutants.
